@@ -91,6 +91,9 @@ impl ChannelSetup {
 //@fn vls-core/src/channel.rs :: impl ChannelSetup :: is_anchors props=C04
     ensures r == setup_is_anchors(*self),
 //@end
+//@fn vls-core/src/channel.rs :: impl ChannelSetup :: is_zero_fee_htlc props=C04
+    ensures r == (self.commitment_type == CommitmentType::AnchorsZeroFeeHtlc),
+//@end
 }
 
 // ------------------------------------------------------------------ spec side (BOLT-3 roles)
